@@ -57,9 +57,10 @@ theorem single_fault_atomic_full (hist : List (Env × Req)) (env : Env) (req : R
   exact single_fault_atomic hist env req e he
 
 /-- non-trivial instance of the hypothesis: a write fault at the separator line of a one-file upload -/
-example : (processUpload ⟨20260930, [], []⟩
-    ⟨[Part.file [97] (Bytes.ofString "BenchmarkA 1 2 ns/op\n") false [21]], false, some ⟨4, false, false⟩⟩ {}).resp
-      = .error Err.fs := by decide +kernel
+example : (match (processUpload ⟨20260930, [], []⟩
+    ⟨[Part.file [97] (Bytes.ofString "BenchmarkA 1 2 ns/op\n") false [21]], false, some ⟨5, false, false⟩⟩ {}).resp with
+      | .error Err.fs => true
+      | _ => false) = true := by decide +kernel
 
 /-- **success_complete_partial**. Index part of the success clause, after any history: the query
 `upload:<id>` of a successful upload returns exactly the benchmark lines of all its files — every
